@@ -79,7 +79,11 @@ func main() {
 		g := harness.GenFromClassified(&c, *tier)
 		if *soak >= 0 {
 			names := harness.EcoNames()
-			g.Soak = names[*soak%len(names)]
+			if k := *soak % (len(names) + 1); k == len(names) {
+				g.SoakVers = true
+			} else {
+				g.Soak = names[k]
+			}
 		}
 		g.Lifetimes = *lifetimes
 		b := harness.Batch{Seed: *seed, Tier: *tier, Batch: *batch}
@@ -117,6 +121,9 @@ func main() {
 			if !simrt.RaceEnabled {
 				fmt.Fprintln(os.Stderr, "sim: warning: not a -race build; the race oracle is off")
 			}
+		}
+		if mode == "run" {
+			simrt.InSimulatorProcess()
 		}
 		simrt.SetSites(*sites)
 		simrt.SetOpBudget(*budget)
